@@ -134,10 +134,32 @@ def acc():
     return dp.BudgetAccountant()
 
 
+def cont(**arrays):
+    """continuous outputs: EVERY scalar carries noise and is compared on its own (coincidence ~2^-50 per double)"""
+    sc = []
+    for name, a in arrays.items():
+        for i, v in enumerate(np.ravel(np.asarray(a, dtype=float))):
+            sc.append((f"{name}[{i}]", float(v)))
+    return {"scalars": sc, "groups": {}}
+
+
+def disc(**groups):
+    """discrete outputs: each named group (a cell over repeated calls, one tree's labels) is compared as a whole; the
+    groups are sized so that two independent runs coincide with probability < 2^-40"""
+    return {"scalars": [], "groups": {k: list(v) for k, v in groups.items()}}
+
+
+def repeat_cells(f, reps):
+    """call an integer-valued tool `reps` times; one group per output cell"""
+    runs = [list(np.ravel(f())) for _ in range(reps)]
+    return disc(**{f"cell{i}": [r[i] for r in runs] for i in range(len(runs[0]))})
+
+
 def _tool(name, **kw):
     def run(rs):
         d = data()
-        return flat(getattr(T, name)(d["X"], epsilon=1.0, bounds=(0.0, 1.0), axis=0, random_state=rs, accountant=acc(), **kw))
+        return cont(cell=getattr(T, name)(d["X"], epsilon=1.0, bounds=(0.0, 1.0), axis=0, random_state=rs, accountant=acc(),
+                                          **kw))
     return run
 
 
@@ -145,44 +167,43 @@ def _quantile_frac(rs):
     """all data equal to 0.5 in (0, 1): only the two intervals [0, .5], [.5, 1] have measure, so out mod 0.5 is the
     within-interval uniform itself"""
     x = np.full(50, 0.5)
-    return [float(T.quantile(x, 0.5, epsilon=1.0, bounds=(0.0, 1.0), random_state=rs, accountant=acc()) % 0.5)
-            for _ in range(3)]
+    return cont(frac=[float(T.quantile(x, 0.5, epsilon=1.0, bounds=(0.0, 1.0), random_state=rs, accountant=acc()) % 0.5)
+                      for _ in range(3)])
 
 
 TOOLS = {
-    "count_nonzero": [("axis0", lambda rs: flat(T.count_nonzero(data()["X"] > 0.5, epsilon=0.05, axis=0, random_state=rs,
-                                                                accountant=acc())))],
+    "count_nonzero": [("axis0", lambda rs: repeat_cells(lambda: T.count_nonzero(
+        data()["X"] > 0.5, epsilon=0.05, axis=0, random_state=rs, accountant=acc()), 8))],
     "mean": [("axis0", _tool("mean")),
-             ("scalar", lambda rs: [T.mean(data()["X"], epsilon=1.0, bounds=(0.0, 1.0), random_state=rs, accountant=acc())
-                                    for _ in range(3)])],
+             ("scalar", lambda rs: cont(call=[T.mean(data()["X"], epsilon=1.0, bounds=(0.0, 1.0), random_state=rs,
+                                                     accountant=acc()) for _ in range(3)]))],
     "nanmean": [("axis0", _tool("nanmean"))],
     "var": [("axis0", _tool("var"))],
     "nanvar": [("axis0", _tool("nanvar"))],
     "std": [("axis0", _tool("std"))],
     "nanstd": [("axis0", _tool("nanstd"))],
     "sum": [("axis0", _tool("sum")),
-            ("int", lambda rs: flat(T.sum(data()["Xi"], epsilon=0.5, bounds=(0, 10), axis=0, dtype=int, random_state=rs,
-                                          accountant=acc())))],
+            ("int", lambda rs: repeat_cells(lambda: T.sum(data()["Xi"][:, :6], epsilon=0.5, bounds=(0, 10), axis=0, dtype=int,
+                                                          random_state=rs, accountant=acc()), 10))],
     "nansum": [("axis0", _tool("nansum")),
-               ("int", lambda rs: flat(T.nansum(data()["Xi"], epsilon=0.5, bounds=(0, 10), axis=0, dtype=int,
-                                                random_state=rs, accountant=acc())))],
-    "histogram": [("16bins", lambda rs: flat(T.histogram(data()["X"][:, 0], epsilon=0.05, bins=16, range=(0.0, 1.0),
-                                                         random_state=rs, accountant=acc())[0]))],
-    "histogramdd": [("4x4", lambda rs: flat(T.histogramdd(data()["X"][:, :2], epsilon=0.05, bins=4,
-                                                          range=[(0.0, 1.0), (0.0, 1.0)], random_state=rs,
-                                                          accountant=acc())[0]))],
-    "histogram2d": [("4x4", lambda rs: flat(T.histogram2d(data()["X"][:, 0], data()["X"][:, 1], epsilon=0.05, bins=4,
-                                                          range=[(0.0, 1.0), (0.0, 1.0)], random_state=rs,
-                                                          accountant=acc())[0]))],
-    "quantile": [("axis0", lambda rs: flat(T.quantile(data()["X"], 0.3, epsilon=1.0, bounds=(0.0, 1.0), axis=0,
-                                                      random_state=rs, accountant=acc()))),
-                 ("multi", lambda rs: flat(T.quantile(data()["X"][:, 0], [0.2, 0.5, 0.8], epsilon=1.0, bounds=(0.0, 1.0),
-                                                      random_state=rs, accountant=acc()))),
+               ("int", lambda rs: repeat_cells(lambda: T.nansum(data()["Xi"][:, :6], epsilon=0.5, bounds=(0, 10), axis=0,
+                                                                dtype=int, random_state=rs, accountant=acc()), 10))],
+    "histogram": [("8bins", lambda rs: repeat_cells(lambda: T.histogram(
+        data()["X"][:, 0], epsilon=0.05, bins=8, range=(0.0, 1.0), random_state=rs, accountant=acc())[0], 8))],
+    "histogramdd": [("3x3", lambda rs: repeat_cells(lambda: T.histogramdd(
+        data()["X"][:, :2], epsilon=0.05, bins=3, range=[(0.0, 1.0), (0.0, 1.0)], random_state=rs, accountant=acc())[0], 8))],
+    "histogram2d": [("3x3", lambda rs: repeat_cells(lambda: T.histogram2d(
+        data()["X"][:, 0], data()["X"][:, 1], epsilon=0.05, bins=3, range=[(0.0, 1.0), (0.0, 1.0)], random_state=rs,
+        accountant=acc())[0], 8))],
+    "quantile": [("axis0", lambda rs: cont(cell=T.quantile(data()["X"], 0.3, epsilon=1.0, bounds=(0.0, 1.0), axis=0,
+                                                           random_state=rs, accountant=acc()))),
+                 ("multi", lambda rs: cont(q=T.quantile(data()["X"][:, 0], [0.2, 0.5, 0.8], epsilon=1.0, bounds=(0.0, 1.0),
+                                                        random_state=rs, accountant=acc()))),
                  ("within-interval-uniform", _quantile_frac)],
-    "percentile": [("axis0", lambda rs: flat(T.percentile(data()["X"], 30, epsilon=1.0, bounds=(0.0, 1.0), axis=0,
-                                                          random_state=rs, accountant=acc())))],
-    "median": [("axis0", lambda rs: flat(T.median(data()["X"], epsilon=1.0, bounds=(0.0, 1.0), axis=0, random_state=rs,
-                                                  accountant=acc())))],
+    "percentile": [("axis0", lambda rs: cont(cell=T.percentile(data()["X"], 30, epsilon=1.0, bounds=(0.0, 1.0), axis=0,
+                                                               random_state=rs, accountant=acc())))],
+    "median": [("axis0", lambda rs: cont(cell=T.median(data()["X"], epsilon=1.0, bounds=(0.0, 1.0), axis=0, random_state=rs,
+                                                       accountant=acc())))],
 }
 
 B3 = (-np.ones(3), np.ones(3))
@@ -199,18 +220,16 @@ def _leaf_labels(tree, X=None, empty_only=False):
     return list(lab[leaf])
 
 
-def _forest_out(f):
+def _forest_out(f, last=None):
     d = data()
     f.fit(d["Xm"], d["y3"])
-    out = []
-    for e in f.estimators_:
-        out += _leaf_labels(e)
-    return out
+    trees = f.estimators_ if last is None else f.estimators_[-last:]
+    return disc(**{f"tree{i}": _leaf_labels(e) for i, e in enumerate(trees)})
 
 
 def _tree_out(t):
     d = data()
-    return _leaf_labels(t.fit(d["Xm"], d["y3"]))
+    return disc(labels=_leaf_labels(t.fit(d["Xm"], d["y3"])))
 
 
 _X1 = np.array([[0.1, 0.2, 0.3]])
@@ -218,57 +237,99 @@ _X1 = np.array([[0.1, 0.2, 0.3]])
 
 def _tree_empty_out(t):
     t.fit(_X1, np.array([1]))
-    return _leaf_labels(t, _X1, empty_only=True)
+    return disc(empty_leaves=_leaf_labels(t, _X1, empty_only=True))
 
 
 def _pca_out(p):
     p.fit(data()["Xm"])
-    return flat(p.components_) + flat(p.explained_variance_) + flat(p.mean_)
+    return cont(components=p.components_, explained_variance=p.explained_variance_, mean=p.mean_)
 
 
 def _cov(rs):
     from diffprivlib.models.utils import covariance_eig
     v, u = covariance_eig(data()["Xm"], epsilon=2.0, norm=1.5, random_state=rs)
-    return flat(v) + flat(u)
+    return cont(eigenvalues=v, eigenvectors=u)
 
 
 def _scaler_out(s_):
     s_.fit(data()["Xm"])
-    return flat(s_.mean_) + flat(s_.var_)
+    return cont(mean=s_.mean_, var=s_.var_)
+
+
+def _scaler_partial(s_):
+    s_.partial_fit(data()["Xm"])
+    return cont(mean=s_.mean_, var=s_.var_)
+
+
+def _nb_out(e):
+    e.fit(data()["Xm"], data()["y3"])
+    return cont(theta=e.theta_, var=e.var_)
+
+
+def _nb_partial(e):
+    e.partial_fit(data()["Xm"], data()["y3"], classes=[0, 1, 2])
+    return cont(theta=e.theta_, var=e.var_)
 
 
 def _linreg_out(m):
     m.fit(data()["Xm"], data()["yr"])
-    return flat(m.coef_) + flat(m.intercept_)
+    return cont(coef=m.coef_, intercept=m.intercept_)
+
+
+def _lr_out(key):
+    def out(e):
+        e.fit(data()["Xm"], data()[key])
+        return cont(coef=e.coef_, intercept=e.intercept_)
+    return out
+
+
+def _forest_warm_first(f):
+    f.fit(data()["Xm"], data()["y3"])
+
+
+def _forest_warm_second(f):
+    f.set_params(n_estimators=4)
+    return _forest_out(f, last=2)
+
+
+def _forest_make(rs, **kw):
+    return MD.RandomForestClassifier(n_estimators=kw.pop("n_estimators", 3), epsilon=0.05, bounds=B3, classes=[0, 1, 2, 3],
+                                     max_depth=5, random_state=rs, accountant=acc(), **kw)
 
 
 # name -> [(variant, make(random_state) -> unfitted estimator, fit_and_read(estimator) -> outputs)]
 MODEL_PARTS = {
-    "GaussianNB": [("fit", lambda rs: MD.GaussianNB(epsilon=1.0, bounds=B3, random_state=rs, accountant=acc()),
-                    lambda e: flat(e.fit(data()["Xm"], data()["y3"]).theta_))],
+    "GaussianNB": [("fit", lambda rs: MD.GaussianNB(epsilon=1.0, bounds=B3, random_state=rs, accountant=acc()), _nb_out)],
     "KMeans": [("fit", lambda rs: MD.KMeans(n_clusters=2, epsilon=5.0, bounds=B3, random_state=rs, accountant=acc()),
-                lambda e: flat(e.fit(data()["Xm"]).cluster_centers_))],
+                lambda e: cont(centers=e.fit(data()["Xm"]).cluster_centers_))],
     "StandardScaler": [("fit", lambda rs: MD.StandardScaler(epsilon=1.0, bounds=B3, random_state=rs, accountant=acc()),
                         _scaler_out)],
     "LinearRegression": [("fit", lambda rs: MD.LinearRegression(epsilon=2.0, bounds_X=B3, bounds_y=(-1.0, 1.0),
                                                                 random_state=rs, accountant=acc()), _linreg_out)],
     "LogisticRegression": [("binary", lambda rs: MD.LogisticRegression(epsilon=2.0, data_norm=1.5, max_iter=30,
-                                                                       random_state=rs, accountant=acc()),
-                            lambda e: flat(e.fit(data()["Xm"], data()["y2"]).coef_)),
+                                                                       random_state=rs, accountant=acc()), _lr_out("y2")),
                            ("ovr", lambda rs: MD.LogisticRegression(epsilon=2.0, data_norm=1.5, max_iter=30,
-                                                                    random_state=rs, accountant=acc()),
-                            lambda e: flat(e.fit(data()["Xm"], data()["y3"]).coef_))],
+                                                                    random_state=rs, accountant=acc()), _lr_out("y3"))],
     "PCA": [("fit", lambda rs: MD.PCA(n_components=2, epsilon=2.0, bounds=B3, data_norm=2.5, random_state=rs,
                                       accountant=acc()), _pca_out)],
-    "RandomForestClassifier": [("fit", lambda rs: MD.RandomForestClassifier(
-        n_estimators=4, epsilon=0.05, bounds=B3, classes=[0, 1, 2, 3], max_depth=4, random_state=rs, accountant=acc()),
-        _forest_out)],
+    "RandomForestClassifier": [("fit", lambda rs: _forest_make(rs), _forest_out)],
     "DecisionTreeClassifier": [("fit", lambda rs: MD.DecisionTreeClassifier(
         epsilon=0.05, bounds=B3, classes=[0, 1, 2, 3], max_depth=5, random_state=rs, accountant=acc()), _tree_out),
         ("empty-leaf-label", lambda rs: MD.DecisionTreeClassifier(
             epsilon=1.0, bounds=B3, classes=[0, 1, 2, 3], max_depth=5, random_state=rs, accountant=acc()),
          _tree_empty_out)],
 }
+
+# continuation sequences: first(estimator) [batch 1] -> round trip -> second(estimator) [batch 2, whose outputs are read]
+SEQ_PARTS = {
+    "StandardScaler": [("partial_fit", MODEL_PARTS["StandardScaler"][0][1], _scaler_partial, _scaler_partial)],
+    "GaussianNB": [("partial_fit", MODEL_PARTS["GaussianNB"][0][1], _nb_partial, _nb_partial)],
+    "RandomForestClassifier": [("warm_start", lambda rs: _forest_make(rs, n_estimators=2, warm_start=True),
+                                _forest_warm_first, _forest_warm_second)],
+}
+for _n, _vs in MODEL_PARTS.items():
+    _v, _mk, _out = _vs[0]
+    SEQ_PARTS.setdefault(_n, []).append(("refit", _mk, _out, _out))
 
 
 def _sk_clone(e):
@@ -282,6 +343,29 @@ def _deepcopy(e):
 
 
 MODEL_WAYS = {"direct": lambda e: e, "clone": _sk_clone, "deepcopy": _deepcopy}
+ROUNDTRIPS = {"continue": lambda e: e, "pickle": _pickle_roundtrip, "deepcopy": _deepcopy, "clone": _sk_clone}
+
+
+def _seq_runner(make, first, roundtrip, second, cached):
+    """batch 1 -> round trip -> batch 2.  With random_state=None and `cached`, batch 1 is run ONCE and every call takes a
+    new round-trip copy of that same fitted estimator, so that two runs differ only by the noise of batch 2."""
+    box = {}
+
+    def run(rs):
+        if rs is None and cached:
+            if "e0" not in box:
+                e0 = make(None)
+                first(e0)
+                box["e0"] = e0
+            e = roundtrip(box["e0"])
+        else:
+            e0 = make(rs)
+            first(e0)
+            e = roundtrip(e0)
+        return second(e)
+    return run
+
+
 MODELS = {}
 for _n, _vs in MODEL_PARTS.items():
     MODELS[_n] = []
@@ -289,7 +373,13 @@ for _n, _vs in MODEL_PARTS.items():
         for _w, _wf in MODEL_WAYS.items():
             MODELS[_n].append((_v if _w == "direct" else f"{_v}|{_w}",
                                (lambda mk, out, wf: (lambda rs: out(wf(mk(rs)))))(_mk, _out, _wf)))
+for _n, _vs in SEQ_PARTS.items():
+    for _v, _mk, _first, _second in _vs:
+        for _w, _wf in ROUNDTRIPS.items():
+            MODELS[_n].append((f"{_v}-then-{_v}|seq:{_w}", _seq_runner(_mk, _first, _wf, _second, _w != "continue")))
 MODELS["covariance_eig"] = [("full", _cov)]
+# estimators that make no structural draw: their unseeded fit must leave the global generators untouched as well
+NO_STRUCTURAL = {"GaussianNB", "StandardScaler", "LinearRegression", "LogisticRegression", "PCA", "covariance_eig"}
 
 
 class _NoInstance(Exception):
@@ -348,6 +438,12 @@ def src_of(rng):
     if isinstance(rng, np.random.RandomState):
         return "seeded"
     if isinstance(rng, np.random.Generator):
+        bg = rng.bit_generator
+        # default_rng(<legacy RandomState>) WRAPS that RandomState's MT19937: a Generator over numpy's global state
+        if bg is np.random.mtrand._rand._bit_generator:
+            return "globalNumpy"
+        if type(bg).__name__ != "PCG64":
+            return "other:Generator(" + type(bg).__name__ + ")"
         return "freshGenerator"
     return "other:" + type(rng).__name__
 
@@ -367,7 +463,7 @@ def make_seed(kind):
 
 
 def observe(runner, kind):
-    """-> ('error', excname) | ('ok', sorted set of 'Mech:src')"""
+    """-> ('error', excname) | ('ok', sorted set of 'Mech:src') | ('crash', text, set so far)"""
     state = np.random.get_state()
     try:
         with warnings.catch_warnings():
@@ -378,8 +474,12 @@ def observe(runner, kind):
                 except (ValueError, TypeError, NotImplementedError) as e:   # NotImplementedError: deep copy of an
                     if not rec.instances:                                       # estimator holding a SystemRandom
                         return ("error", type(e).__name__)
-                    raise
-        return ("ok", sorted({f"{type(o).__name__}:{src_of(o._rng)}" for o in rec.instances}))
+                    return ("crash", f"{type(e).__name__}: {str(e)[:160]}",
+                            sorted({f"{type(o).__name__}:{src_of(getattr(o, '_rng', None))}" for o in rec.instances}))
+                except Exception as e:  # noqa - an unexpected exception of the library is an observation, not an abort
+                    return ("crash", f"{type(e).__name__}: {str(e)[:160]}",
+                            sorted({f"{type(o).__name__}:{src_of(getattr(o, '_rng', None))}" for o in rec.instances}))
+        return ("ok", sorted({f"{type(o).__name__}:{src_of(getattr(o, '_rng', None))}" for o in rec.instances}))
     finally:
         np.random.set_state(state)
 
@@ -413,6 +513,8 @@ def correspondence(ctx):
                 got = src_of(crs(make_seed(k), bool(b)))
             except (ValueError, TypeError):
                 got = "error"
+            except Exception as e:  # noqa
+                got = "crash:" + type(e).__name__
             want = outs[base + a * 2 + b]
             ctx.case(("crs", k, b))
             if got != want:
@@ -424,44 +526,51 @@ def correspondence(ctx):
                               f"check_random_state({k}, secure=True) returned a {got} generator",
                               {"kind": "crs", "seed": k})
     for n in names:
-        variants = [e for e in entries if e[0] == n]
+        variants = [e for e in entries if e[0] == n and e[1] not in COPY_WAYS]      # copies of mechanisms: `copies`
         for k in SEED_KINDS:
             # clone / deepcopy of an estimator DUPLICATES a RandomState passed as random_state: numpy's global singleton
             # becomes an ordinary caller-owned RandomState in the copy
             def kind_for(v):
                 return "randomState" if (k == "globalSingleton" and ("|clone" in v or "|deepcopy" in v)) else k
-            want = set()
-            for (_, v, _, _) in variants:
-                want |= model_sites(plan[(n, kind_for(v))])
-            want_err = bool(want) and all(w.endswith(":error") for w in want)
-            seen = set()
-            err = None
+            want_all, seen_all = set(), set()
             for (_, v, runner, group) in variants:
+                if "|seq:" in v and k not in ("none", "int"):
+                    continue
+                want = model_sites(plan[(n, kind_for(v))])
+                want_err = bool(want) and all(w.endswith(":error") for w in want)
                 r = observe(runner, k)
-                if r[0] == "error":
-                    err = r[1]
-                else:
-                    seen |= set(r[1])
-                    if k == "none":
-                        for ms in r[1]:
-                            mech, src = ms.split(":", 1)
-                            ok = src == "osCsprng" or (src == "freshGenerator" and mech in ("Staircase", "Bingham"))
-                            if not ok:
-                                ctx.violation(f"C14:{n}:{mech}:rng-not-os-csprng",
-                                              f"{n} [{v}] with random_state=None constructed a {mech} whose _rng is "
-                                              f"{src} (not secrets.SystemRandom)",
-                                              {"kind": "rng-class", "entry": n, "variant": v})
-            ctx.case((n, k) if (seen or err) else None)
-            if want_err:
-                if err is None:
-                    ctx.disagree("rng-provenance", {"entry": n, "random_state": k}, plan[(n, k)], sorted(seen),
-                                 note="model: the call raises")
-                else:
-                    ctx.trace_ok()
-            elif err is not None or seen != want:
-                ctx.disagree("rng-provenance", {"entry": n, "random_state": k}, sorted(want), err or sorted(seen))
-            else:
+                inp = {"entry": n, "variant": v, "random_state": k}
+                ctx.case((n, v, k))
+                observed = set(r[1]) if r[0] == "ok" else (set(r[2]) if r[0] == "crash" else set())
+                if k == "none":
+                    for ms in sorted(observed):
+                        mech, src = ms.split(":", 1)
+                        ok = src == "osCsprng" or (src == "freshGenerator" and mech in ("Staircase", "Bingham"))
+                        if not ok:
+                            ctx.violation(f"C14:{n}:{mech}:rng-not-os-csprng",
+                                          f"{n} [{v}] with random_state=None constructed a {mech} whose _rng is "
+                                          f"{src} (not secrets.SystemRandom)",
+                                          {"kind": "rng-class", "entry": n, "variant": v})
+                if r[0] == "crash":
+                    ctx.disagree("rng-provenance", inp, "returns" if not want_err else "raises ValueError/TypeError",
+                                 "raised " + r[1], note="unexpected exception from the library")
+                    continue
+                if want_err:
+                    if r[0] != "error":
+                        ctx.disagree("rng-provenance", inp, plan[(n, kind_for(v))], sorted(observed),
+                                     note="model: the call raises")
+                    else:
+                        ctx.trace_ok()
+                    continue
+                if r[0] == "error" or not observed <= want:
+                    ctx.disagree("rng-provenance", inp, sorted(want), r[1] if r[0] == "error" else sorted(observed))
+                    continue
+                want_all |= want
+                seen_all |= observed
                 ctx.trace_ok()
+            if seen_all != want_all:
+                ctx.disagree("rng-provenance.coverage", {"entry": n, "random_state": k}, sorted(want_all), sorted(seen_all),
+                             note="a mechanism site of the model's plan was never observed in any variant")
     copies(ctx)
     ctx.sample({"entry": "RandomForestClassifier", "random_state": "none",
                 "model_plan": plan[("RandomForestClassifier", "none")]})
@@ -475,7 +584,7 @@ def obtain_copy(name, way, kind):
         with warnings.catch_warnings():
             warnings.simplefilter("ignore")
             m = mk(make_seed(kind))
-    except (ValueError, TypeError) as e:
+    except Exception as e:  # noqa
         return ("ctor-error", type(e).__name__)
     try:
         c = COPY_WAYS[way][1](m)
@@ -534,56 +643,79 @@ def states_equal(s1, s2):
     return s1[0] == s2[0] and np.array_equal(s1[1], s2[1]) and tuple(s1[2:]) == tuple(s2[2:])
 
 
-def sig_for(entry, variant, what):
+def sig_for(entry, variant, what, component=None):
     if entry == "DecisionTreeClassifier" and variant == "empty-leaf-label":
         return "C14:DecisionTreeClassifier:empty-leaf-label:global-numpy"
     if entry == "quantile" and variant == "within-interval-uniform":
         return f"C14:quantile:within-interval-uniform:{what}"
+    comp = "" if component in (None, "all") else ":" + component.split("[")[0]
+    if "|seq:" in variant:
+        return f"C14:{entry}:{variant.replace('|', ':')}{comp}:{what}"
     if variant in COPY_WAYS or variant.endswith("|clone") or variant.endswith("|deepcopy"):
-        return f"C14:{entry}:{variant.split('|')[-1]}:{what}"
-    return f"C14:{entry}:{what}"
+        return f"C14:{entry}:{variant.split('|')[-1]}{comp}:{what}"
+    return f"C14:{entry}{comp}:{what}"
+
+
+def components(out):
+    """-> list of (component name, list of values)"""
+    if isinstance(out, dict):
+        return [(n, [v]) for n, v in out["scalars"]] + [(n, list(v)) for n, v in out["groups"].items()]
+    return [("all", list(out))] if len(out) else []
+
+
+def identical_components(out1, out2):
+    """names of the noise-carrying components that came out IDENTICAL in the two runs (every one of them must differ)"""
+    c1, c2 = components(out1), dict(components(out2))
+    return [(n, v) for n, v in c1 if n in c2 and same(v, c2[n])]
 
 
 def blackbox_one(entry, variant, runner, group, s):
-    """-> list of (signature, what) failures for one global seed"""
+    """-> (list of (signature, what) failures for one global seed, number of components, crash text or None)"""
     fails = []
-    with warnings.catch_warnings():
-        warnings.simplefilter("ignore")
-        np.random.seed(s)
-        random.seed(s)
-        st_np, st_py = np.random.get_state(), random.getstate()
-        out1 = runner(None)
-        if group in ("mechanism", "tool"):
-            if not states_equal(st_np, np.random.get_state()):
-                fails.append((sig_for(entry, variant, "consumes-global-state"),
-                              f"{entry} [{variant}] with random_state=None advanced numpy's global generator"))
-            if random.getstate() != st_py:
-                fails.append((sig_for(entry, variant, "consumes-global-state"),
-                              f"{entry} [{variant}] with random_state=None advanced Python's global generator"))
-        np.random.seed(s)
-        random.seed(s)
-        out2 = runner(None)
-    if len(out1) == 0:
-        return fails, 0
-    if same(out1, out2):
-        fails.append((sig_for(entry, variant, "reproducible-under-global-seed"),
+    check_state = group in ("mechanism", "tool") or entry in NO_STRUCTURAL
+    try:
+        with warnings.catch_warnings():
+            warnings.simplefilter("ignore")
+            np.random.seed(s)
+            random.seed(s)
+            st_np, st_py = np.random.get_state(), random.getstate()
+            out1 = runner(None)
+            if check_state:
+                if not states_equal(st_np, np.random.get_state()):
+                    fails.append((sig_for(entry, variant, "consumes-global-state"),
+                                  f"{entry} [{variant}] with random_state=None advanced numpy's global generator"))
+                if random.getstate() != st_py:
+                    fails.append((sig_for(entry, variant, "consumes-global-state"),
+                                  f"{entry} [{variant}] with random_state=None advanced Python's global generator"))
+            np.random.seed(s)
+            random.seed(s)
+            out2 = runner(None)
+    except Exception as e:  # noqa - an unexpected exception of the library: reported per case, never an abort
+        return fails, 0, f"{type(e).__name__}: {str(e)[:200]}"
+    comps = components(out1)
+    for name, vals in identical_components(out1, out2):
+        fails.append((sig_for(entry, variant, "reproducible-under-global-seed", name),
                       f"{entry} [{variant}] with random_state=None: two runs after np.random.seed({s}); random.seed({s}) "
-                      f"returned the same {len(out1)} outputs {str(out1[:4])[:120]}…"))
-    return fails, len(out1)
+                      f"returned the same {name} = {str(vals[:4])[:100]}" + ("…" if len(vals) > 4 else "")))
+    return fails, len(comps), None
 
 
 def blackbox(ctx):
     r = ctx.fork("global-seeds")
-    seeds = [0, 7] + [r.randint(1, 2 ** 31 - 1) for _ in range(ctx.budget(1, 8))]
+    seeds = [0] + [r.randint(1, 2 ** 31 - 1) for _ in range(ctx.budget(1, 6))]
     saved = np.random.get_state(), random.getstate()
     try:
         for (entry, variant, runner, group) in all_entries():
             for s in seeds:
-                fails, n = blackbox_one(entry, variant, runner, group, s)
+                fails, n, crash = blackbox_one(entry, variant, runner, group, s)
                 ctx.case(("bb", entry, variant, s) if n else None)
+                data = {"kind": "blackbox", "entry": entry, "variant": variant, "global_seed": s}
+                if crash:
+                    ctx.disagree("blackbox.run", data, "returns", "raised " + crash,
+                                 note="unexpected exception from the library")
                 for sig, what in fails:
-                    ctx.violation(sig, what, {"kind": "blackbox", "entry": entry, "variant": variant, "global_seed": s})
-                if not fails:
+                    ctx.violation(sig, what, data)
+                if not fails and not crash:
                     ctx.trace_ok()
     finally:
         np.random.set_state(saved[0])
@@ -594,6 +726,7 @@ def check(ctx):
     with seams.fresh_default_accountant():
         correspondence(ctx)
         blackbox(ctx)
+    ctx.count("entry_variants", len(all_entries()))
 
 
 def replay(ctx, data):
@@ -601,7 +734,7 @@ def replay(ctx, data):
     ent = {(e, v): (f, g) for e, v, f, g in all_entries()}
     if d.get("kind") == "blackbox":
         f, g = ent[(d["entry"], d["variant"])]
-        fails, _ = blackbox_one(d["entry"], d["variant"], f, g, int(d["global_seed"]))
+        fails, _, _ = blackbox_one(d["entry"], d["variant"], f, g, int(d["global_seed"]))
         return bool(fails)
     if d.get("kind") == "rng-class":
         f, g = ent[(d["entry"], d["variant"])]
